@@ -147,6 +147,7 @@ class TreeInfo(productmd.common.MetadataBase):
         self.serialize(parser, main_variant=main_variant)
         io = six.StringIO()
         self.build_file(parser, io)
+        productmd.common._assert_encodable(f, io.getvalue())
         with productmd.common.open_file_obj(f, "w") as f:
             f.write(io.getvalue())
 
